@@ -14,7 +14,13 @@ L == [ id |-> "lib1",
                    d4 |-> [valid |-> FALSE, clauses |-> << Fact("bad", <<Num(0)>>) >>],
                    d5 |-> [valid |-> TRUE,  clauses |-> << Rule(A("v", <<X>>), <<<<"pos", A("nosuch", <<X>>)>>>>) >>],
                    d6 |-> [valid |-> TRUE,  clauses |-> << Fact("p", <<Num(9)>>) >>],
-                   d7 |-> [valid |-> TRUE,  clauses |-> << Fact("w", <<Num(1)>>) >>] ] ]
-TI == {"d1", "d2", "d3", "d4", "d5", "d6", "d7"}
+                   d7 |-> [valid |-> TRUE,  clauses |-> << Fact("w", <<Num(1)>>) >>],
+                   \* accepted by the parser and by analysis, rejected only when evaluated (division by zero):
+                   \* d8 always (it brings its own fact), d9 only on top of file f1 (base(1) makes the divisor zero)
+                   d8 |-> [valid |-> TRUE,  clauses |-> << Fact("z", <<Num(7)>>),
+                                                           Rule(A("y", <<X>>), <<<<"pos", A("z", <<Var("Y")>>)>>, <<"eq", X, Ap("fn:div", <<Var("Y"), Num(0)>>)>>>>) >>],
+                   d9 |-> [valid |-> TRUE,  clauses |-> << Rule(A("u", <<X>>), <<<<"pos", A("base", <<Var("Y")>>)>>,
+                                                                              <<"eq", X, Ap("fn:div", <<Num(6), Ap("fn:minus", <<Var("Y"), Num(1)>>)>>)>>>>) >>] ] ]
+TI == {"d1", "d2", "d3", "d4", "d5", "d6", "d7", "d8", "d9"}
 FS == {{"f1"}, {"f2"}, {"f3"}, {"f1", "f3"}}
 =============================================================================
